@@ -1,6 +1,7 @@
 package main
 
 import (
+	"errors"
 	"fmt"
 	"io/fs"
 	"os"
@@ -11,6 +12,7 @@ import (
 	"syscall"
 
 	xfs "github.com/richardwilkes/toolbox/xio/fs"
+	"github.com/richardwilkes/toolbox/xio/fs/safe"
 	"verifharness/hx"
 )
 
@@ -30,6 +32,11 @@ func (pathsArea) Gen(r *hx.Rng, n int, _ string, emit func(string)) {
 	for _, p := range fixed {
 		emit("clean " + hx.Hex([]byte(p)))
 		emit("dirof " + hx.Hex([]byte(p)))
+	}
+	// safe.Create on raw names (relative to a scratch directory that contains sub/): invalid, or the cleaned name it keeps
+	for _, nm := range []string{"/", "//", "/./", "/..", "/../", "x", "x/", "x//", "./x", "sub/x", "sub/x/", "sub//x", "sub/../x", "", ".",
+		"./", "sub/", "sub/.", "sub/./", "..", "../", "../x", "sub/../../x", "x/.", "x/..", "sub/x/..", "a*b", "safe1", "safe1/"} {
+		emit("origname " + hx.Hex([]byte(nm)))
 	}
 	cwd, _ := os.Getwd()
 	td := os.TempDir()
@@ -74,10 +81,55 @@ func (pathsArea) Run(line string) string {
 		return hx.Hex([]byte(filepath.Clean(string(hx.UnHex(f[1])))))
 	case len(f) == 2 && f[0] == "dirof":
 		return hx.Hex([]byte(filepath.Dir(string(hx.UnHex(f[1])))))
+	case len(f) == 2 && f[0] == "origname":
+		return withDeadline(func() string { return origName(string(hx.UnHex(f[1]))) })
 	case len(f) == 5 && f[0] == "tempname":
 		return withDeadline(func() string { return tempNames(string(hx.UnHex(f[2])), string(hx.UnHex(f[3])), f[4] == "1") })
 	}
 	return "bad-op"
+}
+
+// origName: safe.Create(name) in a scratch directory: "invalid" (os.ErrInvalid, nothing created) or "valid:<hex of
+// OriginalName()>" — the name as CreateWithMode cleaned it; the temporary file must sit in filepath.Dir of it.
+func origName(name string) string {
+	scratch, err := os.MkdirTemp(".", "o")
+	if err != nil {
+		panic(err)
+	}
+	if scratch, err = filepath.Abs(scratch); err != nil {
+		panic(err)
+	}
+	defer os.RemoveAll(scratch)
+	work := scratch + "/w"
+	if err = os.MkdirAll(work+"/sub", 0o755); err != nil {
+		panic(err)
+	}
+	cwd, err := os.Getwd()
+	if err != nil {
+		panic(err)
+	}
+	if err = os.Chdir(work); err != nil {
+		panic(err)
+	}
+	defer os.Chdir(cwd) //nolint:errcheck
+	f, cerr := safe.Create(name)
+	if cerr != nil {
+		if errors.Is(cerr, os.ErrInvalid) {
+			if es, _ := os.ReadDir("."); len(es) != 1 {
+				return "BAD:something-created-for-an-invalid-name"
+			}
+			return "invalid"
+		}
+		return "err:" + resCode(cerr)
+	}
+	defer f.Close()
+	on := f.OriginalName()
+	want, _ := filepath.Abs(filepath.Dir(on))
+	got, _ := filepath.Abs(filepath.Dir(f.Name()))
+	if want != got {
+		return "BAD:temporary-file-not-in-Dir(OriginalName)"
+	}
+	return "valid:" + hx.Hex([]byte(on))
 }
 
 func tempNames(dir, pat string, exists bool) string {
